@@ -120,7 +120,9 @@ def parse_dimacs(infile):
                 raise ValueError(
                     "There is a another spec at line {}".format(line_counter))
             try:
-                _, _, nstr, mstr = line.split()
+                pstr, fmtstr, nstr, mstr = line.split()
+                if pstr != 'p' or fmtstr != 'cnf':
+                    raise ValueError
                 n = int(nstr)
                 m = int(mstr)
                 if n < 0 or m < 0:
